@@ -610,7 +610,8 @@ func (self *_Assembler) _asm_OP_skip_empty(p *_Instr) {
 	self.Sjmp("JS", _LB_parsing_error_v) // JS      _parse_error_v
 	self.Emit("BTQ", jit.Imm(_F_disable_unknown), _ARG_fv)
 	self.Xjmp("JNC", p.vi())
-	self.Emit("LEAQ", jit.Sib(_IC, _AX, 1, 0), _BX)
+	self.Emit("MOVQ", _IC, _BX)
+	self.Emit("SUBQ", _AX, _BX)
 	self.Emit("MOVQ", _BX, _ARG_sv_n)
 	self.Emit("LEAQ", jit.Sib(_IP, _AX, 1, 0), _AX)
 	self.Emit("MOVQ", _AX, _ARG_sv_p)
